@@ -2,6 +2,7 @@ package reporter
 
 import (
 	"context"
+	"errors"
 	"log/slog"
 	"slices"
 	"strconv"
@@ -25,6 +26,10 @@ type ExistingComment struct {
 	text string
 	line int
 }
+
+// errCommentSkipped is returned by Create when the platform cannot place the comment (path is not
+// part of the pull request); such comments must not be counted against the maxComments budget.
+var errCommentSkipped = errors.New("comment skipped")
 
 type Commenter interface {
 	Describe() string
@@ -308,6 +313,9 @@ func updateDestination(ctx context.Context, s Summary, c Commenter, dst any, sho
 		}
 
 		if err := c.Create(ctx, dst, pending); err != nil {
+			if errors.Is(err, errCommentSkipped) {
+				goto NEXTCreate
+			}
 			slog.Error("Failed to create a new comment",
 				slog.String("reporter", c.Describe()),
 				slog.String("path", pending.path),
